@@ -6,4 +6,4 @@ import (
 	"verif/internal/harness"
 )
 
-func TestProps(t *testing.T) { harness.Main(t, "C01", SCT) }
+func TestProps(t *testing.T) { harness.Main(t, "C01", SCT, Concurrent) }
